@@ -24,8 +24,9 @@ def run(chk, tier):
         rules_ptr.conjuring_lint(chk, prog, config=c)
         rules_ptr.zst_guard(chk, prog, config=c)
         rules_ptr.aligned_types(chk, prog, config=c)
+        rules_ptr.coercion_site_is_raw_pointer(chk, prog, config=c)
         # the unsafe raw constructors / casts / cache allocation stay out of reach of safe code only if no exported
         # macro evaluates a caller-supplied expression inside an `unsafe` block (seed C19-c: unsize!)
         from gcv.props import common
         common.macro_args_outside_unsafe(chk, prog, c)
-    witness.report(chk, "C19", rule="witness", floor=12, tier=tier)
+    witness.report(chk, "C19", rule="witness", floor=15, tier=tier)
